@@ -102,7 +102,11 @@ func (p *parser) endsInANumber(u *Url, input string) bool {
 		parts = parts[0 : len(parts)-1]
 	}
 	last := parts[len(parts)-1]
-	if last != "" && containsOnly(last, ASCIIDigit) {
+	if last == "" {
+		// an empty label is not a number, and must not be reported as an IPv4 error either
+		return false
+	}
+	if containsOnly(last, ASCIIDigit) {
 		return true
 	}
 	if _, _, err := p.parseIPv4Number(u, last); err == nil || goerrors.Is(err, strconv.ErrRange) {
